@@ -57,3 +57,35 @@ Proof.
     split; [reflexivity|]. split; [exact S|]. exists h'. auto.
   - exists (ibinom_new cap). split; [reflexivity|]. split; cbn; [apply ProofsTree.Rep_empty | exact I].
 Qed.
+
+(** * indexed Fibonacci heap: every run that ends [Ok] is a valid trace *)
+From Algo.C05 Require Import ProofsFib.
+
+Lemma run_from_valid_partial cmp (R : state -> amap -> Prop) :
+  (forall s m o s' r, R s m -> step cmp s o = Ok (s', r) ->
+                      exists m', spec_step cmp m o r = Some m' /\ R s' m') ->
+  forall ops s m outs, R s m -> run_from cmp s ops = Ok outs ->
+    length outs = length ops /\ valid_trace cmp m (combine ops outs).
+Proof.
+  intros ST. induction ops as [|o ops IH]; intros s m outs H E; cbn [run_from] in E.
+  - inversion E. split; [reflexivity | exact I].
+  - destruct (step cmp s o) as [[s' r]| |] eqn:E1; cbn [bind] in E; try discriminate.
+    destruct (run_from cmp s' ops) as [rs| |] eqn:E2; cbn [bind] in E; try discriminate.
+    inversion E; subst outs. destruct (ST _ _ _ _ _ H E1) as (m' & S & H').
+    destruct (IH _ _ _ H' E2) as (L & V). split; [cbn; lia|]. cbn [combine valid_trace]. now rewrite S.
+Qed.
+
+Definition R_fib cmp (s : state) (m : amap) : Prop := exists h, s = SFib h /\ InvF cmp h m.
+
+Lemma ifib_partial cmp : TotalOrder cmp ->
+  forall (cap : nat) (ops : list op) (outs : list out),
+    run cmp IFib cap ops = Ok outs ->
+    length outs = length ops /\ valid_trace cmp (empty_map cap) (combine ops outs).
+Proof.
+  intros TO cap ops outs. unfold run. apply (run_from_valid_partial cmp (R_fib cmp)).
+  - intros s m o s' r (h & -> & I) E. cbn [step] in E.
+    destruct (ifib_step cmp h o) as [[h' r']| |] eqn:E1; cbn [bind] in E; try discriminate. inversion E; subst s' r'.
+    destruct (step_spec_F cmp (to_pre _ TO) (cmp_eq _ TO) h m o h' r I E1) as (m' & S & I').
+    exists m'. split; [exact S|]. exists h'. auto.
+  - exists (ifib_new cap). split; [reflexivity | apply InvF_new].
+Qed.
